@@ -30,6 +30,7 @@ type ecCase struct {
 	Repair bool     `json:"repair,omitempty"`
 	Second []bool   `json:"second,omitempty"` // C26: shards removed after the repairing read
 	Seed   uint64   `json:"seed"`
+	Extra  int      `json:"extra,omitempty"` // further blobs written by the same Add call
 }
 
 var damageKinds = []string{"missing", "trunc0", "trunc1", "trunc16", "trunc17", "trunc18", "half", "flip-payload", "flip-meta"}
@@ -101,6 +102,12 @@ func runECCase(c *ecCase) (vs []Violation) {
 	data := ecPayload(c.Size, c.Seed)
 	id := sop.UUID{1, 2, 3, 4, 5, 6, 7, 8, 9, 10, 11, 12, 13, 14, 15, byte(c.Size)}
 	payload := []sop.BlobsPayload[sop.KeyValuePair[sop.UUID, []byte]]{{BlobTable: "tbl", Blobs: []sop.KeyValuePair[sop.UUID, []byte]{{Key: id, Value: data}}}}
+	var extraIDs []sop.UUID
+	for x := 0; x < c.Extra; x++ {
+		xid := sop.UUID{byte(0xA0 + x), 2, 3, 4, 5, 6, 7, 8, 9, 10, 11, 12, 13, 14, 15, byte(c.Size)}
+		extraIDs = append(extraIDs, xid)
+		payload[0].Blobs = append(payload[0].Blobs, sop.KeyValuePair[sop.UUID, []byte]{Key: xid, Value: ecPayload(c.Size+1+x, c.Seed+uint64(x)+1)})
+	}
 	shardFile := func(i int) string {
 		return filepath.Join(sopfs.DefaultToFilePath(filepath.Join(drives[i], "tbl"), id), fmt.Sprintf("%s_%d", id.String(), i))
 	}
@@ -146,6 +153,17 @@ func runECCase(c *ecCase) (vs []Violation) {
 	} else if werr != nil {
 		add("write-fails-without-faults", fmt.Sprintf("Add of %d bytes failed without any fault: %v", c.Size, werr))
 		return vs
+	}
+	// the other blobs of the same Add call must be readable as well
+	for x, xid := range extraIDs {
+		got, rerr, pan := guard("GetOne", func() ([]byte, error) { return bs.GetOne(ctx, "tbl", xid) })
+		if pan {
+			return vs
+		}
+		if rerr != nil || string(got) != string(ecPayload(c.Size+1+x, c.Seed+uint64(x)+1)) {
+			add("batch-blob-unreadable", fmt.Sprintf("blob #%d of a %d-blob Add (%d of %d shard writes failing, p=%d) reads back err=%v equal=%v", x+2, c.Extra+1, nfail, n, c.P, rerr, rerr == nil && string(got) == string(ecPayload(c.Size+1+x, c.Seed+uint64(x)+1))))
+			return vs
+		}
 	}
 	// originals (for C26 comparison)
 	orig := make([][]byte, n)
@@ -356,7 +374,7 @@ func runECUnit(repair bool) func(u *Unit) {
 				for i := 0; i < n; i++ {
 					wf[i] = mask&(1<<uint(i)) != 0
 				}
-				if cnt > 0 && !run(&ecCase{D: d, P: p, Size: size, Damage: make([]string, n), Write: wf, Seed: uint64(u.Index)*977 + uint64(mask)}) {
+				if cnt > 0 && !run(&ecCase{D: d, P: p, Size: size, Damage: make([]string, n), Write: wf, Seed: uint64(u.Index)*977 + uint64(mask), Extra: mask % 3}) {
 					return
 				}
 			}
@@ -446,7 +464,7 @@ func init() {
 		return len(ecConfigs) * 9
 	}
 	Register(&CheckDef{ID: "C25", Level: "fault_enumeration",
-		Rule:    "each unit = one (d,p) in {(1,1),(2,1),(2,2),(3,2),(4,2)} x one blob size in {0,1,d-1,d,d+1,1023,1024,1025,65539}; ALL subsets of the d+p shard files x damage kind (missing, truncated to 0/1/16/17/18 bytes/half, payload bit flip, metadata bit flip; each kind uniformly plus 3 PRNG-mixed assignments per subset) on fs.NewBlobStoreWithEC over real files; plus ALL subsets of failing shard writes on Add. Oracle: <= p damaged => exact bytes; > p => error or exact bytes, never different bytes; any panic is a violation; Add fails iff more than p shard writes fail. distinct_nontrivial = distinct (d,p,size,damage/write pattern)",
+		Rule:    "each unit = one (d,p) in {(1,1),(2,1),(2,2),(3,2),(4,2)} x one blob size in {0,1,d-1,d,d+1,1023,1024,1025,65539}; ALL subsets of the d+p shard files x damage kind (missing, truncated to 0/1/16/17/18 bytes/half, payload bit flip, metadata bit flip; each kind uniformly plus 3 PRNG-mixed assignments per subset) on fs.NewBlobStoreWithEC over real files; plus ALL subsets of failing shard writes on an Add call carrying 1-3 blobs. Oracle: <= p damaged => exact bytes; > p => error or exact bytes, never different bytes; any panic is a violation; Add fails iff more than p shard writes fail. distinct_nontrivial = distinct (d,p,size,damage/write pattern)",
 		Exhaust: "all shard subsets x uniform damage kinds for the listed (d,p) and sizes (mixed kinds are sampled)",
 		Units:   units, Run: runECUnit(false), Replay: replayEC,
 		Real:   []string{"fs.BlobStoreWithEC (Add, GetOne incl. shard metadata handling), fs/erasure (encode, decode, reconstruct), klauspost/reedsolomon"},
